@@ -157,6 +157,7 @@ func (tree *Tree[T]) Clean(prefix string) {
 	}
 
 	tree.node.clean(prefix)
+	tree.recountMethods()
 }
 
 // Remove 移除路由项
@@ -205,7 +206,7 @@ func (tree *Tree[T]) Remove(pattern string, methods ...string) {
 		child = child.parent
 	}
 
-	tree.buildMethods(-1, methods...)
+	tree.recountMethods() // methods 中可能包含了该节点上并不存在的请求方法，所以重新统计。
 }
 
 // 获取指定的节点，若节点不存在，则在该位置生成一个新节点。
